@@ -28,7 +28,6 @@ import (
 	"github.com/drand/kyber/share"
 	"github.com/drand/kyber/share/dkg"
 	"github.com/drand/kyber/sign"
-	"github.com/drand/kyber/util/random"
 	vrt "verif.local/vrt"
 )
 
@@ -54,6 +53,10 @@ type Keys struct {
 	Indices []int
 }
 
+// polySeq numbers the key materials built by this process: every process of a check builds them in the same order,
+// so the label (and with it the material) is the same in the parent and in its worker processes.
+var polySeq int
+
 // NewKeys draws a random polynomial of threshold t and n key pairs for the scheme.
 func NewKeys(schemeID string, n, t int, period time.Duration, genesis int64) *Keys {
 	idx := make([]int, n)
@@ -72,18 +75,16 @@ func NewKeysIdx(schemeID string, indices []int, t int, period time.Duration, gen
 	}
 	sch.ThresholdScheme = &memoTS{inner: sch.ThresholdScheme}
 	k := &Keys{SchemeID: schemeID, Scheme: sch, N: n, T: t, Period: period, Catchup: time.Second, Genesis: genesis, BeaconID: "default", Indices: indices}
-	k.Poly = share.NewPriPoly(sch.KeyGroup, t, nil, random.New())
+	polySeq++
+	label := fmt.Sprintf("bnet/%s/%v/%d/#%d", schemeID, indices, t, polySeq)
+	k.Poly = share.NewPriPoly(sch.KeyGroup, t, nil, fix.DetStream("poly/"+label))
 	k.Pub = k.Poly.Commit(sch.KeyGroup.Point().Base())
 	_, k.Commits = k.Pub.Info()
 	for _, ix := range indices {
 		k.Shares = append(k.Shares, k.Poly.Eval(ix))
 	}
 	for i := 0; i < n; i++ {
-		kp, err := key.NewKeyPair(fmt.Sprintf("192.0.2.%d:8000", i+1), sch)
-		if err != nil {
-			panic(err)
-		}
-		k.Pairs = append(k.Pairs, kp)
+		k.Pairs = append(k.Pairs, fix.DetKeyPair(fmt.Sprintf("%s/%d", label, i), fmt.Sprintf("192.0.2.%d:8000", i+1), sch))
 	}
 	k.Seed = []byte("verif-genesis-seed-0123456789abcdef")
 	return k
@@ -95,7 +96,8 @@ func NewKeysIdx(schemeID string, indices []int, t int, period time.Duration, gen
 func (k *Keys) Reshare(n2, t2 int, keep []int) *Keys {
 	secret := k.Poly.Secret()
 	nk := &Keys{SchemeID: k.SchemeID, Scheme: k.Scheme, N: n2, T: t2, Period: k.Period, Catchup: k.Catchup, Genesis: k.Genesis, Seed: k.Seed, BeaconID: k.BeaconID}
-	nk.Poly = share.NewPriPoly(k.Scheme.KeyGroup, t2, secret, random.New())
+	polySeq++
+	nk.Poly = share.NewPriPoly(k.Scheme.KeyGroup, t2, secret, fix.DetStream(fmt.Sprintf("reshare/%s/%d/%d/%v/#%d", k.SchemeID, n2, t2, keep, polySeq)))
 	nk.Pub = nk.Poly.Commit(k.Scheme.KeyGroup.Point().Base())
 	_, nk.Commits = nk.Pub.Info()
 	nk.Shares = nk.Poly.Shares(n2)
@@ -107,11 +109,7 @@ func (k *Keys) Reshare(n2, t2 int, keep []int) *Keys {
 			nk.Pairs = append(nk.Pairs, k.Pairs[keep[i]])
 			continue
 		}
-		kp, err := key.NewKeyPair(fmt.Sprintf("192.0.2.%d:8000", 100+i), k.Scheme)
-		if err != nil {
-			panic(err)
-		}
-		nk.Pairs = append(nk.Pairs, kp)
+		nk.Pairs = append(nk.Pairs, fix.DetKeyPair(fmt.Sprintf("reshare-joiner/%d/#%d", i, polySeq), fmt.Sprintf("192.0.2.%d:8000", 100+i), k.Scheme))
 	}
 	return nk
 }
@@ -365,6 +363,13 @@ type Node struct {
 	Down   bool
 	Client *Client
 	close  func()
+	// after a resharing: the key material and index of the node in the new group
+	NewKeys *Keys
+	NewIdx  int
+}
+
+func peerCtx(ctx context.Context, addr string) context.Context {
+	return peer.NewContext(ctx, &peer.Peer{Addr: taddr(addr)})
 }
 
 type Net struct {
@@ -441,6 +446,29 @@ func (n *Net) AddNodePrefilled(ctx context.Context, k *Keys, i int, backend stri
 		cleanup()
 		return nil, err
 	}
+	n.Nodes = append(n.Nodes, nd)
+	n.byAddr[nd.Addr] = nd
+	return nd, nil
+}
+
+// AddNodeGroup builds a handler for member i of keys k with an explicit group description (a joiner whose group
+// carries a transition time).
+func (n *Net) AddNodeGroup(ctx context.Context, k *Keys, i int, backend string, offset time.Duration, g *key.Group) (*Node, error) {
+	base, cleanup, err := fix.NewBackendSize(ctx, backend, k.SchemeID == crypto.DefaultSchemeID, 64)
+	if err != nil {
+		return nil, err
+	}
+	nd := &Node{Idx: len(n.Nodes), Addr: k.Addr(i), Keys: k, Base: base, Clock: &vrt.Clock{Offset: offset}, close: cleanup}
+	nd.Mon = fix.NewMonitor(base)
+	nd.Client = &Client{net: n, self: nd}
+	conf := &beacon.Config{Public: &key.Node{Identity: k.Pairs[i].Public, Index: uint32(k.Indices[i])}, Share: k.Share(i), Group: g, Clock: nd.Clock}
+	h, err := beacon.NewHandler(ctx, nd.Client, nd.Mon, conf, fix.Logger(), common.Version{Major: 2})
+	if err != nil {
+		cleanup()
+		return nil, err
+	}
+	nd.H = h
+	beacon.VerifSetSyncThresholdScheme(h, k.Scheme.ThresholdScheme)
 	n.Nodes = append(n.Nodes, nd)
 	n.byAddr[nd.Addr] = nd
 	return nd, nil
